@@ -567,6 +567,7 @@ class SimSyncStream(httpcore.NetworkStream):
         self.net = net
         self.tr = tr
         self.layer = layer
+        self.detached = False  # True once start_tls() has handed the descriptor to the stream it returned
 
     def _park(self, d, timeout, exc_cls) -> None:
         s = self.net.sched
@@ -646,6 +647,11 @@ class SimSyncStream(httpcore.NetworkStream):
 
     def close(self) -> None:
         self.net.log("close.call", tr=self.tr.id, layer=self.layer)
+        if self.detached:
+            # as with the real synchronous back-end: ssl.wrap_socket() moved the descriptor into the TLS socket object and
+            # left this one detached - closing it closes nothing
+            self.net.log("close.detached", tr=self.tr.id, layer=self.layer)
+            return
         self.tr.do_close(CALL.get())
         self.net.sched.yield_point("net")
 
@@ -666,6 +672,7 @@ class SimSyncStream(httpcore.NetworkStream):
                 tr.do_close("backend:tls-failure")
                 raise
         net.do_start_tls(tr, ssl_context, server_hostname, timeout, idx)
+        self.detached = True
         return SimSyncStream(net, tr, len(tr.layers))
 
     def get_extra_info(self, info: str) -> typing.Any:
